@@ -219,6 +219,23 @@ func check(prop, tier string) int {
 		return 2
 	}
 	defer os.RemoveAll(tmp)
+	// scratch databases live on /dev/shm (memory): one root per check, removed at the end whatever happened to the workers;
+	// roots left behind by a check that was itself killed are swept here (their process is gone)
+	shm := "/dev/shm"
+	if st, err := os.Stat(shm); err != nil || !st.IsDir() {
+		shm = os.TempDir()
+	}
+	if ents, err := os.ReadDir(shm); err == nil {
+		for _, e := range ents {
+			var pid int
+			if _, err := fmt.Sscanf(e.Name(), "pvmc-run-%d", &pid); err == nil && pid > 0 && syscall.Kill(pid, 0) != nil {
+				os.RemoveAll(filepath.Join(shm, e.Name()))
+			}
+		}
+	}
+	scratchRoot := filepath.Join(shm, fmt.Sprintf("pvmc-run-%d", os.Getpid()))
+	os.MkdirAll(scratchRoot, 0777)
+	defer os.RemoveAll(scratchRoot)
 	self, _ := os.Executable()
 	var wg sync.WaitGroup
 	errs := make([]error, n)
@@ -232,7 +249,7 @@ func check(prop, tier string) int {
 			lf, _ := os.Create(filepath.Join(tmp, fmt.Sprintf("w%d.log", i)))
 			cmd.Stdout = io.Discard
 			cmd.Stderr = lf
-			cmd.Env = append(os.Environ(), "GOMAXPROCS=2")
+			cmd.Env = append(os.Environ(), "GOMAXPROCS=2", "PVMC_SCRATCH_ROOT="+scratchRoot)
 			errs[i] = cmd.Run()
 			lf.Close()
 			if b, e := os.ReadFile(lf.Name()); e == nil {
